@@ -72,6 +72,8 @@ def _format_column(col, max_preview: int | None = None) -> List[str]:
 	# Use global default if not specified
 	if max_preview is None:
 		max_preview = _REPR_ROWS_DEFAULT // 2
+	# At least one head and one tail row: vals[-0:] would be the whole column
+	max_preview = max(1, max_preview)
 	
 	# Truncate with symmetric preview
 	vals = col._underlying
